@@ -604,6 +604,72 @@ def msLoop (md5 : Bytes → Bytes) (oldsec newsec oldauth newauth : Bytes) : Lis
           | none => none
           | some s2 => (msLoop md5 oldsec newsec oldauth newauth rest).map ({ a with v := a.v.take 4 ++ s2 } :: ·)
 
+/-- everything `replyh` does once the reply has been matched to an outstanding, transmitted
+    request and found authentic -/
+def replyhCore (w : World) (si id o : Nat) (s0 : Server) (rq : Rq) (m : Msg) : World :=
+    let w := updSrv w si fun s => { s with lastrcv := w.now }
+    let rqIsProbe : Bool := match rq.msg with | some rm => decide (rm.code = 12) | none => false
+    if rqIsProbe then
+      let w := freerqoutdata w si id
+      updSrv w si fun s => { s with ss := if s.ss = ssAuto then ssMinimal else s.ss }
+    else
+      let w := updSrv w si fun s => { s with lastreply := w.now }
+      let rin := dorewrite w.rx s0.conf.rwIn m.attrs
+      if s0.conf.rwIn.isSome ∧ !rin.ok then w
+      else
+        let as1 := if s0.conf.rwIn.isSome then rin.attrs else m.attrs
+        let (ttlres, as2) := checkttl w.opts.ttlType as1
+        if ttlres = 0 then w
+        else
+          let ci := rq.frm.getD 0
+          let cc := match getCli w ci with | some c => w.cliConfs.getD c.conf defCli | none => defCli
+          let fwdAuth := ((rq.buf.getD []).drop 4).take 16
+          match msLoop w.H.md5 s0.conf.secret cc.secret fwdAuth rq.rqauth as2 with
+          | none => w
+          | some as3 =>
+            -- Tunnel-Password
+            let tp : World × Option (List Tlv) :=
+              match as3.findIdx? (·.t = 69) with
+              | some ti =>
+                if m.code = 2 then
+                  let ta := as3.getD ti { t := 69, v := [] }
+                  let (w, rnd) := takeRnd w 2
+                  let newsalt : Bytes := [rnd.getD 0 0 ||| 0x80, rnd.getD 1 0]
+                  let plen := (ta.v.length + 253) % 256      -- (uint8_t)(l - 3)
+                  let body := (ta.v.drop 3).take plen
+                  if plen ≠ body.length then (w, none)          -- wrapped length: rejected by the guard below
+                  else
+                    match Crypt.pwdrecrypt w.H.md5 body s0.conf.secret cc.secret
+                            ((rq.msg.map (·.auth)).getD []) rq.rqauth ((ta.v.drop 1).take 2) newsalt with
+                    | none => (w, none)
+                    | some c => (w, some (as3.set ti { ta with v := ta.v.take 1 ++ newsalt ++ c ++ (ta.v.drop (3 + plen)) }))
+                else (w, some as3)
+              | none => (w, some as3)
+            match tp with
+            | (w, none) => w
+            | (w, some as4) =>
+              -- original User-Name back
+              let as5 :=
+                match rq.origUser, as4.findIdx? (·.t = 1) with
+                | some ou, some ui => as4.set ui { t := 1, v := ou }
+                | _, _ => as4
+              let rout := dorewrite w.rx cc.rwOut as5
+              if cc.rwOut.isSome ∧ !rout.ok then w
+              else
+                let as6 := if cc.rwOut.isSome then rout.attrs else as5
+                let as7 := if m.code = 11 ∨ m.code = 2 ∨ m.code = 3 then ensureMsgAuthFront as6 else as6
+                let as8 := if ttlres = -1 ∧ (w.opts.addttl ≠ 0 ∨ cc.addttl ≠ 0) then
+                    addttlattr w.opts.ttlType (if cc.addttl ≠ 0 then cc.addttl else w.opts.addttl) as7
+                  else as7
+                let m' : Msg := { code := m.code, id := rq.rqid, auth := rq.rqauth, attrs := as8 }
+                let w := updRq w o fun r => { r with msg := some m' }
+                let w := sendreply (newrqref w o) o
+                freerqoutdata w si id
+
+/-- `RequireMessageAuthenticator` applies to UDP/TCP servers and Access-Accept/Reject/Challenge -/
+def needsMsgAuth (c : SrvConf) (code : UInt8) : Bool :=
+  c.reqMA && (c.type = 0 || c.type = 2) && (code = 11 || code = 2 || code = 3)
+
 /-- `replyh(server, buf, len)` -/
 def replyh (w : World) (si : Nat) (buf : Bytes) : World × Nat :=
   match getSrv w si with
@@ -623,67 +689,9 @@ def replyh (w : World) (si : Nat) (buf : Bytes) : World × Nat :=
         | some o, some rq =>
           if sl.tries = 0 then (w, 1)
           else if m.macInvalid then (w, 0)
-          else if s0.conf.reqMA ∧ (s0.conf.type = 0 ∨ s0.conf.type = 2) ∧ (m.code = 11 ∨ m.code = 2 ∨ m.code = 3) ∧
-                  !(m.attrs.any (·.t = 80)) then (w, 1)
+          else if needsMsgAuth s0.conf m.code ∧ !(m.attrs.any (·.t = 80)) then (w, 1)
           else
-            let w := updSrv w si fun s => { s with lastrcv := w.now }
-            let rqIsProbe : Bool := match rq.msg with | some rm => decide (rm.code = 12) | none => false
-            if rqIsProbe then
-              let w := freerqoutdata w si id
-              (updSrv w si fun s => { s with ss := if s.ss = ssAuto then ssMinimal else s.ss }, 1)
-            else
-              let w := updSrv w si fun s => { s with lastreply := w.now }
-              let rin := dorewrite w.rx s0.conf.rwIn m.attrs
-              if s0.conf.rwIn.isSome ∧ !rin.ok then (w, 1)
-              else
-                let as1 := if s0.conf.rwIn.isSome then rin.attrs else m.attrs
-                let (ttlres, as2) := checkttl w.opts.ttlType as1
-                if ttlres = 0 then (w, 1)
-                else
-                  let ci := rq.frm.getD 0
-                  let cc := match getCli w ci with | some c => w.cliConfs.getD c.conf defCli | none => defCli
-                  let fwdAuth := ((rq.buf.getD []).drop 4).take 16
-                  match msLoop w.H.md5 s0.conf.secret cc.secret fwdAuth rq.rqauth as2 with
-                  | none => (w, 1)
-                  | some as3 =>
-                    -- Tunnel-Password
-                    let tp : World × Option (List Tlv) :=
-                      match as3.findIdx? (·.t = 69) with
-                      | some ti =>
-                        if m.code = 2 then
-                          let ta := as3.getD ti { t := 69, v := [] }
-                          let (w, rnd) := takeRnd w 2
-                          let newsalt : Bytes := [rnd.getD 0 0 ||| 0x80, rnd.getD 1 0]
-                          let plen := (ta.v.length + 253) % 256      -- (uint8_t)(l - 3)
-                          let body := (ta.v.drop 3).take plen
-                          if plen ≠ body.length then (w, none)          -- wrapped length: rejected by the guard below
-                          else
-                            match Crypt.pwdrecrypt w.H.md5 body s0.conf.secret cc.secret
-                                    ((rq.msg.map (·.auth)).getD []) rq.rqauth ((ta.v.drop 1).take 2) newsalt with
-                            | none => (w, none)
-                            | some c => (w, some (as3.set ti { ta with v := ta.v.take 1 ++ newsalt ++ c ++ (ta.v.drop (3 + plen)) }))
-                        else (w, some as3)
-                      | none => (w, some as3)
-                    match tp with
-                    | (w, none) => (w, 1)
-                    | (w, some as4) =>
-                      -- original User-Name back
-                      let as5 :=
-                        match rq.origUser, as4.findIdx? (·.t = 1) with
-                        | some ou, some ui => as4.set ui { t := 1, v := ou }
-                        | _, _ => as4
-                      let rout := dorewrite w.rx cc.rwOut as5
-                      if cc.rwOut.isSome ∧ !rout.ok then (w, 1)
-                      else
-                        let as6 := if cc.rwOut.isSome then rout.attrs else as5
-                        let as7 := if m.code = 11 ∨ m.code = 2 ∨ m.code = 3 then ensureMsgAuthFront as6 else as6
-                        let as8 := if ttlres = -1 ∧ (w.opts.addttl ≠ 0 ∨ cc.addttl ≠ 0) then
-                            addttlattr w.opts.ttlType (if cc.addttl ≠ 0 then cc.addttl else w.opts.addttl) as7
-                          else as7
-                        let m' : Msg := { code := m.code, id := rq.rqid, auth := rq.rqauth, attrs := as8 }
-                        let w := updRq w o fun r => { r with msg := some m' }
-                        let w := sendreply (newrqref w o) o
-                        (freerqoutdata w si id, 1)
+            (replyhCore w si id o s0 rq m, 1)
         | _, _ => (w, 1)
 
 /-! ### the client writer -/
